@@ -495,7 +495,7 @@ class Interp(object):
             return c if c is not None else Opaque('%s.%s' % (v.node.name, attr))
         if unknown(v):
             return Opaque('%s.%s' % (key_of(v), attr)) if not isinstance(v, External) else External('%s.%s' % (v.key, attr))
-        if isinstance(v, (list, dict, set, frozenset, tuple, str)):
+        if isinstance(v, (list, dict, set, frozenset, tuple, str, bytes)):
             return ('__method__', v, attr)
         if isinstance(v, (int, float)):
             return Opaque('%r.%s' % (v, attr))
